@@ -285,12 +285,17 @@ type copyWit struct {
 	Short  bool   `json:"short_write,omitempty"`
 	FaultBelowEnc bool `json:"fault_below_encryption,omitempty"`
 	Sched  []int  `json:"schedule,omitempty"`
+	// DstPre is the state of the destination before the call: "" empty | "older" the same paths with
+	// other (longer and shorter) content | "file-at-dir" regular files where the source has
+	// directories | "dir-at-file" directories where the source has files | "extra" unrelated nodes
+	DstPre string `json:"dst_pre,omitempty"`
 }
 
 type copyOut struct {
 	err      string
 	panicTxt string
 	complete bool
+	conflict bool // the destination pre-state cannot hold the copy without replacing a node of another kind
 	diff     string
 	calls    int
 	hits     []string
@@ -340,6 +345,23 @@ func runCopy(w copyWit, opt *explore.Options) (copyOut, *explore.Exec) {
 		}
 		var err error
 		want := t.flat()
+		if w.DstPre != "" {
+			pw := want
+			switch w.Helper {
+			case "Copier.Do(dir)":
+				pw = prefix(want, "out")
+			case "Copier.Do(file)":
+				pw = map[string]string{"copy.bin": "file:" + t[w.Path]}
+			case "StreamCopy":
+				pw = map[string]string{w.Path: "file:" + t[w.Path]}
+			}
+			var perr error
+			if o.conflict, perr = prestate(dstRaw, pw, w.DstPre); perr != nil {
+				o.err = "harness: prestate: " + perr.Error()
+				return
+			}
+			in.N, in.Log, in.Hits = 0, nil, nil
+		}
 		func() {
 			defer func() {
 				if p := recover(); p != nil {
@@ -370,6 +392,24 @@ func runCopy(w copyWit, opt *explore.Options) (copyOut, *explore.Exec) {
 			o.err = err.Error()
 		}
 		o.calls, o.hits = in.N, in.Hits
+		if w.DstPre != "" {
+			// (the pre-state was built inside the deferred-panic block's predecessor; see prestate)
+			in.Fail = map[int]bool{}
+			got, probs := fsx.Walk(dstRaw)
+			o.complete = len(probs) == 0
+			var missing []string
+			for p, v := range want {
+				if got[p] != v {
+					o.complete = false
+					missing = append(missing, fmt.Sprintf("%s: want %s got %q", p, short(v), short(got[p])))
+				}
+			}
+			sort.Strings(missing)
+			if !o.complete {
+				o.diff = strings.Join(missing, "; ") + " " + strings.Join(probs, ";")
+			}
+			return
+		}
 		if err != nil && len(in.Hits) > 0 {
 			// the failure was reported: nothing more is required (and an error path that leaks an
 			// open handle must not hang the verification walk)
@@ -405,6 +445,85 @@ func runCopy(w copyWit, opt *explore.Options) (copyOut, *explore.Exec) {
 	return o, x
 }
 
+func short(v string) string {
+	if len(v) > 40 {
+		return v[:40] + fmt.Sprintf("...(%d bytes)", len(v))
+	}
+	return v
+}
+
+// prestate fills the destination before the copy. It reports whether the copy cannot succeed
+// without replacing a node by one of the other kind (then an error is an acceptable answer).
+func prestate(dst filesystem.Filespace, want map[string]string, mode string) (conflict bool, err error) {
+	var ps []string
+	for p := range want {
+		ps = append(ps, p)
+	}
+	sort.Strings(ps)
+	mk := func(p string) error {
+		if d := filepath.Dir(p); d != "." {
+			return dst.MkdirAll(d, 0777)
+		}
+		return nil
+	}
+	switch mode {
+	case "older":
+		for i, p := range ps {
+			if want[p] == "dir" {
+				if err = dst.MkdirAll(p, 0777); err != nil {
+					return
+				}
+				continue
+			}
+			if err = mk(p); err != nil {
+				return
+			}
+			old := "o"
+			if i%2 == 0 {
+				old = strings.TrimPrefix(want[p], "file:") + "-OLD-AND-LONGER"
+			}
+			if err = dst.WriteFile(p, []byte(old), 0644); err != nil {
+				return
+			}
+		}
+	case "extra":
+		if err = dst.MkdirAll("zz-extra/dir", 0777); err != nil {
+			return
+		}
+		err = dst.WriteFile("zz-extra/file", []byte("extra"), 0644)
+	case "file-at-dir":
+		covered := func(p string) bool {
+			for _, q := range ps {
+				if want[q] == "dir" && q != p && strings.HasPrefix(p, q+"/") {
+					return true
+				}
+			}
+			return false
+		}
+		for _, p := range ps {
+			if want[p] == "dir" && !covered(p) {
+				conflict = true
+				if err = mk(p); err != nil {
+					return
+				}
+				if err = dst.WriteFile(p, []byte("stale file"), 0644); err != nil {
+					return
+				}
+			}
+		}
+	case "dir-at-file":
+		for _, p := range ps {
+			if want[p] != "dir" {
+				conflict = true
+				if err = dst.MkdirAll(p, 0777); err != nil {
+					return
+				}
+			}
+		}
+	}
+	return
+}
+
 func prefix(m map[string]string, p string) map[string]string {
 	out := map[string]string{p: "dir"}
 	for k, v := range m {
@@ -423,6 +542,15 @@ func judgeCopy(w copyWit, o copyOut) (kind, clause, detail string) {
 	}
 	if o.deadlock {
 		return "blocks-forever", "the helper returns", "the copy helper never returned"
+	}
+	if w.DstPre != "" && len(w.Fail) == 0 {
+		if o.err != "" && !o.conflict {
+			return "copy-over-existing-destination-failed/" + w.DstPre, "copy helpers reproduce a source file or tree whether or not something existed there before", "destination pre-state " + w.DstPre + ": the helper failed: " + o.err
+		}
+		if o.err == "" && !o.complete {
+			return "nil-but-incomplete/" + w.DstPre, "an error is reported whenever the destination is not a complete copy", "destination pre-state " + w.DstPre + ": the helper returned nil, but the destination does not hold the source: " + o.diff
+		}
+		return "", "", ""
 	}
 	if len(w.Fail) == 0 {
 		if o.err != "" {
@@ -534,6 +662,21 @@ func run(c *fw.Ctx) {
 					report(fmt.Sprintf("C04/copy/%s/%s/%s->%s", kind, w.Helper, sb, db), clause, fmt.Sprintf("%s of tree %d (path %q) from %s to %s\n%s", w.Helper, w.Tree, w.Path, sb, db, detail), map[string]interface{}{"copy": w0},
 						func() bool { o2, _ := runCopy(w0, nil); k2, _, _ := judgeCopy(w0, o2); return k2 == kind })
 					continue
+				}
+				// the same call over every destination pre-state
+				for _, pre := range []string{"older", "extra", "file-at-dir", "dir-at-file"} {
+					wp := w
+					wp.DstPre = pre
+					op, _ := runCopy(wp, nil)
+					c.R.Evaluations++
+					c.Count("copy_cases_over_existing_destination", 1)
+					if kind, clause, detail := judgeCopy(wp, op); kind != "" && kind != "harness" {
+						wpc := wp
+						report(fmt.Sprintf("C04/copy/%s/%s", kind, w.Helper), clause, fmt.Sprintf("%s of tree %d (path %q) from %s to %s\n%s", w.Helper, w.Tree, w.Path, sb, db, detail), map[string]interface{}{"copy": wpc},
+							func() bool { o2, _ := runCopy(wpc, nil); k2, _, _ := judgeCopy(wpc, o2); return k2 == kind })
+					} else if kind == "harness" {
+						c.Count("prestate_not_buildable", 1)
+					}
 				}
 				n := o.calls
 				c.Max("fault_positions_per_copy", int64(n))
@@ -721,7 +864,7 @@ func replay(wj json.RawMessage) (*fw.Violation, error) {
 
 func init() {
 	fw.Register(&fw.Check{ID: "C04", Level: "fault_enumeration",
-		Rule: "streams: backends{mem,disk,enc-mem,enc-disk,cache-mem} x contents{'', 'x', 'xyz', 5KiB} x every split into <=3 chunks (incl. empty chunks; fixed cut points for the long content) x previous destination{absent,empty,shorter,longer,equal,directory} x read buffers{1,2,3,4096}; copy helpers {fshelper.Copy, Copier.Do(dir), Copier.Do(file), StreamCopy} x 5 tree shapes (one with a 70 KiB file, i.e. several rounds of the 32 KiB copy loop) x all 25 source/destination backend pairs, fault-free and with EVERY single numbered call (open/Read/Write/Close/MkdirAll/ReadDir/IsFile/IsDir/Filespace, on source and destination; error and short-write variants) failing, for encrypted backends also with the failing layer below the encryption; thorough adds every pair of failing calls (memory) and preemption bound 2 for the concurrent tree copy. distinct = cases; all run the real code",
+		Rule: "streams: backends{mem,disk,enc-mem,enc-disk,cache-mem} x contents{'', 'x', 'xyz', 5KiB} x every split into <=3 chunks (incl. empty chunks; fixed cut points for the long content) x previous destination{absent,empty,shorter,longer,equal,directory} x read buffers{1,2,3,4096}; copy helpers {fshelper.Copy, Copier.Do(dir), Copier.Do(file), StreamCopy} x 5 tree shapes (one with a 70 KiB file, i.e. several rounds of the 32 KiB copy loop) x all 25 source/destination backend pairs, fault-free over 5 destination pre-states (empty, same paths with older longer/shorter content, unrelated nodes, regular files where the source has directories, directories where the source has files: nil result => every source node present with its kind and bytes) and with EVERY single numbered call (open/Read/Write/Close/MkdirAll/ReadDir/IsFile/IsDir/Filespace, on source and destination; error and short-write variants) failing, for encrypted backends also with the failing layer below the encryption; thorough adds every pair of failing calls (memory) and preemption bound 2 for the concurrent tree copy. distinct = cases; all run the real code",
 		Run: run, Replay: replay,
 		Assumptions: []string{"fault positions are the calls crossing the Filespace/Reader/Writer interfaces (harness-side wrapper)", "a bool query 'fails' by answering false", "fshelper.Copy runs under the controlled scheduler: default schedule for the fault sweep, bounded preemptions for the fault-free case"}})
 }
